@@ -221,9 +221,16 @@ func rootText(w *world, r int) *crdt.Text {
 }
 
 func evalText(c Case, trace bool) verdict {
+	v, _ := evalTextModels(c, trace)
+	return v
+}
+
+// evalTextModels is evalText that also returns the final models (nil after a
+// failure or a discarded case).
+func evalTextModels(c Case, trace bool) (verdict, *[2]*textModel) {
 	w, err := newWorld(trace, func(r *yjson.Object) { r.SetNewText("t") })
 	if err != nil {
-		return historyVerdict(w, err)
+		return historyVerdict(w, err), nil
 	}
 	var models [2]*textModel
 	reinit := func(r int) *kit.Failure {
@@ -240,7 +247,7 @@ func evalText(c Case, trace bool) verdict {
 	}
 	for r := 0; r < 2; r++ {
 		if f := reinit(r); f != nil {
-			return w.finish(f, false)
+			return w.finish(f, false), nil
 		}
 	}
 	nonTrivial := false
@@ -249,35 +256,35 @@ func evalText(c Case, trace bool) verdict {
 		switch s.Op {
 		case "sync":
 			if e := w.sync(r, s.A%4 == 0); e != nil {
-				return historyVerdict(w, e)
+				return historyVerdict(w, e), nil
 			}
 			if f := reinit(r); f != nil {
-				return w.finish(f, false)
+				return w.finish(f, false), nil
 			}
 			continue
 		case "syncall":
 			for _, q := range []int{0, 1, 0, 1} {
 				if e := w.sync(q, false); e != nil {
-					return historyVerdict(w, e)
+					return historyVerdict(w, e), nil
 				}
 			}
 			for q := 0; q < 2; q++ {
 				if f := reinit(q); f != nil {
-					return w.finish(f, false)
+					return w.finish(f, false), nil
 				}
 			}
 			continue
 		case "snap":
 			if e := w.snapshot(r); e != nil {
-				return historyVerdict(w, e)
+				return historyVerdict(w, e), nil
 			}
 			if f := reinit(r); f != nil {
-				return w.finish(f, false)
+				return w.finish(f, false), nil
 			}
 			continue
-		case "edit", "style":
+		case "edit", "style", "e3", "s3":
 		default:
-			return w.finish(kit.Failf("HARNESS", "HARNESS-ERROR unknown text op %q", s.Op), false)
+			return w.finish(kit.Failf("HARNESS", "HARNESS-ERROR unknown text op %q", s.Op), false), nil
 		}
 		m := models[r]
 		n := len(m.units)
@@ -316,7 +323,15 @@ func evalText(c Case, trace bool) verdict {
 		var desc string
 		var content string
 		var attrs map[string]string
-		if s.Op == "edit" {
+		if s.Op == "e3" { // small-scope alphabet: "", a, b, c without attributes
+			s.Op, content = "edit", []string{"", "a", "b", "c"}[s.C%4]
+			desc = fmt.Sprintf("t.Edit(%d,%d,%q) on %q", from, to, content, m.str())
+			w.count("enum:edit")
+		} else if s.Op == "s3" {
+			s.Op, attrs = "style", map[string]string{"b": "1"}
+			desc = fmt.Sprintf("t.Style(%d,%d,%v) on %q", from, to, attrs, m.str())
+			w.count("enum:style")
+		} else if s.Op == "edit" {
 			content = textContents[s.C%len(textContents)]
 			attrs = textAttrs[s.D%len(textAttrs)]
 			desc = fmt.Sprintf("t.Edit(%d,%d,%q,%v) on %q", from, to, content, attrs, m.str())
@@ -379,10 +394,10 @@ func evalText(c Case, trace bool) verdict {
 		}
 		if fail != nil {
 			w.logf("FAIL %s", fail.Error())
-			return w.finish(fail, false)
+			return w.finish(fail, false), nil
 		}
 	}
-	return w.finish(nil, nonTrivial)
+	return w.finish(nil, nonTrivial), &models
 }
 
 // genSteps draws a program as three concatenated slices (rapid's slice length
